@@ -134,6 +134,14 @@ def replay(obd, cex):
     mod.P = dict(obd["params"], _twin=False, _replay=True)
     mod.LAST = {}
     args, kw = cex
+    if obd["func"] == "h_real":
+        # already the real CodeBase and finder on a real tree: a native re-run is the replay
+        try:
+            ok = h_real(*args, **kw)
+        except Exception as e:
+            ok = False
+            LAST.update(exception=repr(e))
+        return dict(reproduced=(ok is False), detail=dict(LAST))
     try:
         ok = h_alias(*args, **kw)
     except Exception as e:
@@ -170,13 +178,111 @@ def replay(obd, cex):
         return dict(reproduced=True, detail=detail)
 
 
+# ---- the real CodeBase on a real scratch tree: links whose target is outside are no members, links to members add nothing ----
+
+LINK_KINDS = ["file-in", "file-out", "dir-in", "dir-out", "file-out-in-subdir", "chain-out"]
+
+
+def h_real(k1: int, k2: int, rel: bool, compiled: bool) -> bool:
+    """
+    pre: 0 <= k1 < 6 and 0 <= k2 < 6
+    post: _
+    """
+    import os
+    import shutil
+    import tempfile
+
+    ks = []
+    for v in (k1, k2):
+        for j in range(6):
+            if v == j:
+                ks.append(j)
+    rl, cp = bool(rel), bool(compiled)
+    STATS["compared"] += 1
+    if P.get("_twin"):
+        return False
+    why = None
+    with scen.untraced():
+        import codebasin
+        import codebasin.finder as finder
+
+        top = os.path.realpath(tempfile.mkdtemp(prefix="vp_c15r_"))
+        try:
+            def build(with_links):
+                base = os.path.join(top, "L" if with_links else "T")
+                root, out = os.path.join(base, "root"), os.path.join(base, "outside")
+                os.makedirs(os.path.join(root, "src"))
+                os.makedirs(os.path.join(out, "ext"))
+                for rp, text in (("root/src/a.c", "int a;\n#ifdef X\nint x;\n#endif\n"), ("root/src/b.c", "int b;\nint b2;\n"),
+                                 ("outside/v.c", "int v;\nint v2;\nint v3;\n"), ("outside/ext/w.c", "int w;\n")):
+                    with open(os.path.join(base, rp), "w") as f:
+                        f.write(text)
+                if with_links:
+                    def link(target, name):
+                        lp = os.path.join(root, name)
+                        os.symlink(os.path.relpath(target, os.path.dirname(lp)) if rl else target, lp)
+
+                    for n, k in enumerate(ks):
+                        kind = LINK_KINDS[k]
+                        if kind == "file-in":
+                            link(os.path.join(root, "src/a.c"), "l%d.c" % n)
+                        elif kind == "file-out":
+                            link(os.path.join(out, "v.c"), "l%d.c" % n)
+                        elif kind == "dir-in":
+                            link(os.path.join(root, "src"), "d%d" % n)
+                        elif kind == "dir-out":
+                            link(os.path.join(out, "ext"), "d%d" % n)
+                        elif kind == "file-out-in-subdir":
+                            link(os.path.join(out, "v.c"), "src/l%d.c" % n)
+                        elif kind == "chain-out":
+                            # a link to a link whose final target is outside
+                            os.symlink(os.path.join(out, "v.c"), os.path.join(root, "hop%d.c" % n))
+                            link(os.path.join(root, "hop%d.c" % n), "l%d.c" % n)
+                return root
+
+            def run(root):
+                cwd = os.getcwd()
+                os.chdir(top)  # (relative link texts must not be read against the working directory)
+                try:
+                    cb = codebasin.CodeBase(root)
+                    conf = {"p": [dict(file=os.path.join(root, "src/a.c"), defines=["X"], include_paths=[], include_files=[])]}
+                    if cp:
+                        conf["q"] = [dict(file=os.path.join(root, "src/b.c"), defines=[], include_paths=[], include_files=[])]
+                    st = finder.find(root, cb, conf)
+                    sm = {tuple(sorted(k)): v for k, v in dict(st.get_setmap(cb)).items() if v}
+                    members = sorted(os.path.relpath(m, root) for m in cb)
+                    return sm, members, len(st.get_filenames())
+                finally:
+                    os.chdir(cwd)
+
+            sm_l, mem_l, n_l = run(build(True))
+            sm_t, mem_t, n_t = run(build(False))
+            outside = [m for m in mem_l if os.path.realpath(os.path.join(top, "L/root", m)).startswith(os.path.join(top, "L/outside"))]
+            if outside:
+                why = "links whose target is outside the code base are members: %s" % outside
+            elif sm_l != sm_t:
+                why = "totals with links %s != without %s" % (sm_l, sm_t)
+            elif n_l != n_t:
+                why = "%d files parsed with links, %d without" % (n_l, n_t)
+        except Exception as e:
+            why = "exception " + repr(e)
+        finally:
+            shutil.rmtree(top, ignore_errors=True)
+    if P.get("_replay"):
+        LAST.update(links=[LINK_KINDS[k] for k in ks], relative_link_text=rl, second_platform=cp, why=why)
+    return why is None
+
+
 def obligations(tier, known):
-    return [Ob(id="alias/cmd%d-inc%d" % (a, i), kind="ch", module=__name__, func="h_alias", params=dict(fix=[a, i]), timeout=900,
-               group="alias") for a in range(5) for i in range(3)]
+    obs = [Ob(id="alias/cmd%d-inc%d" % (a, i), kind="ch", module=__name__, func="h_alias", params=dict(fix=[a, i]), timeout=900,
+              group="alias") for a in range(5) for i in range(3)]
+    obs.append(Ob(id="real/links", kind="ch", module=__name__, func="h_real", params={}, timeout=600, group="real"))
+    return obs
 
 
 CLAIM = ("For every combination of path spellings (canonical, with redundant segments, through a file symlink, through a directory symlink) at "
          "the compile commands, the -I option and the #include directives, the analysis lands on the same lines of the same physical files "
          "as the canonical twin, builds one tree per physical file, and counts links into the code base zero times - exhausted by CrossHair.")
 LEVEL_NOTE = ("Trusted: CrossHair/z3 for the enumeration, the in-memory realpath model in vp/memfs.py (replays use real symlinks), "
-              "vp/refs/ref_cpp.py. Bounded: 3 physical files, 4 aliases.")
+              "vp/refs/ref_cpp.py. Bounded: 3 physical files, 4 aliases; real/: the real CodeBase and finder on a scratch tree "
+              "with two links out of 6 kinds (file/directory, target inside/outside, in a sub-directory, chained), link text relative or absolute.")
